@@ -88,6 +88,108 @@ fn feed_all_parsers(sink: &mut Sink, input: &[u8]) {
     feed(sink, "pae_unpack", input, |b| hooks::pae_unpack(b).is_ok());
 }
 
+/// One node of a DER document (definite lengths): tag, content, and the children of a constructed node.
+struct Tlv {
+    tag: u8,
+    content: Vec<u8>,
+    children: Option<Vec<Tlv>>,
+}
+
+fn der_parse(mut b: &[u8], depth: usize) -> Option<Vec<Tlv>> {
+    let mut out = vec![];
+    while !b.is_empty() {
+        let tag = b[0];
+        let (len, hdr) = match *b.get(1)? {
+            l if l < 0x80 => (l as usize, 2),
+            0x81 => (*b.get(2)? as usize, 3),
+            0x82 => (((*b.get(2)? as usize) << 8) | *b.get(3)? as usize, 4),
+            _ => return None,
+        };
+        let content = b.get(hdr..hdr + len)?.to_vec();
+        let children = if tag & 0x20 != 0 && depth < 8 { der_parse(&content, depth + 1) } else { None };
+        out.push(Tlv { tag, content, children });
+        b = &b[hdr + len..];
+    }
+    Some(out)
+}
+
+fn der_write(nodes: &[Tlv], out: &mut Vec<u8>) {
+    for n in nodes {
+        let mut c = vec![];
+        match &n.children {
+            Some(ch) => der_write(ch, &mut c),
+            None => c = n.content.clone(),
+        }
+        out.push(n.tag);
+        if c.len() < 0x80 {
+            out.push(c.len() as u8);
+        } else if c.len() < 0x100 {
+            out.extend([0x81, c.len() as u8]);
+        } else {
+            out.extend([0x82, (c.len() >> 8) as u8, c.len() as u8]);
+        }
+        out.extend(c);
+    }
+}
+
+/// Well-formed DER with degenerate values: every primitive node of the document in turn emptied, cut to
+/// its first byte (for a BIT STRING: nothing but the unused-bits count), cut to its first two bytes, or
+/// doubled; every constructed node in turn emptied or robbed of its last child. Lengths are re-encoded,
+/// so the importers meet values of the right shape with nothing - or too little - inside.
+fn der_degenerate(der: &[u8]) -> Vec<Vec<u8>> {
+    fn count(nodes: &[Tlv]) -> usize {
+        nodes.iter().map(|n| 1 + n.children.as_ref().map_or(0, |c| count(c))).sum()
+    }
+    fn edit(nodes: &mut Vec<Tlv>, target: &mut usize, how: usize) -> bool {
+        for n in nodes.iter_mut() {
+            if *target == 0 {
+                match (&mut n.children, how) {
+                    (Some(ch), 0) => ch.clear(),
+                    (Some(ch), 1) => {
+                        ch.pop();
+                    }
+                    (Some(_), _) => return false,
+                    (None, 0) => n.content.clear(),
+                    (None, 1) => n.content.truncate(1),
+                    (None, 2) => n.content.truncate(2),
+                    (None, _) => {
+                        let c = n.content.clone();
+                        n.content.extend(c);
+                    }
+                }
+                return true;
+            }
+            *target -= 1;
+            if let Some(ch) = &mut n.children {
+                if edit(ch, target, how) {
+                    return true;
+                }
+                if *target == usize::MAX {
+                    return false;
+                }
+            }
+        }
+        false
+    }
+    let mut out = vec![];
+    let Some(tree) = der_parse(der, 0) else { return out };
+    let n = count(&tree);
+    for target in 0..n {
+        for how in 0..4 {
+            let mut t = der_parse(der, 0).unwrap();
+            let mut tg = target;
+            if edit(&mut t, &mut tg, how) {
+                let mut b = vec![];
+                der_write(&t, &mut b);
+                if b != der {
+                    out.push(b);
+                }
+            }
+        }
+    }
+    out
+}
+
 fn feed_key_importers(sink: &mut Sink, input: &[u8]) {
     for scheme in [SignatureScheme::Ed25519, SignatureScheme::EcdsaP256Sha256, SignatureScheme::RsaSsaPssSha256] {
         let s1 = scheme.clone();
@@ -430,6 +532,21 @@ pub fn run(cfg: &Cfg) {
     let mut der_seeds: Vec<Vec<u8>> = vec![];
     for f in ["ec.pk8.der", "ed25519-1.pk8.der", "rsa-2048.pk8.der", "rsa-2048.spki.der", "ec.spki.der", "ed25519-1.spki.der", "ed25519-1.pub"] {
         der_seeds.push(std::fs::read(keys_dir().join(f)).unwrap());
+    }
+    // well-formed documents with degenerate values, as DER and as the PEM text of a key description
+    for f in ["ec.spki.der", "ed25519-1.spki.der", "rsa-2048.spki.der", "ec.pk8.der", "ed25519-1.pk8.der"] {
+        let der = std::fs::read(keys_dir().join(f)).unwrap();
+        for d in der_degenerate(&der) {
+            feed_key_importers(&mut sink, &d);
+            if f.ends_with("spki.der") {
+                let pem_text = pem::encode(&pem::Pem::new("PUBLIC KEY", d.clone()));
+                feed_key_importers(&mut sink, pem_text.as_bytes());
+                for (kt, scheme) in [("rsa", "rsassa-pss-sha256"), ("rsa", "ecdsa-sha2-nistp256"), ("ecdsa", "ecdsa-sha2-nistp256"), ("ed25519", "ed25519")] {
+                    let doc = serde_json::json!({"keytype": kt, "scheme": scheme, "keyid_hash_algorithms": ["sha256", "sha512"], "keyval": {"public": pem_text}}).to_string();
+                    feed(&mut sink, "serde_json::from_slice::<PublicKey>", doc.as_bytes(), |b| serde_json::from_slice::<PublicKey>(b).is_ok());
+                }
+            }
+        }
     }
     der_seeds.push(pem::encode(&pem::Pem::new("PUBLIC KEY", std::fs::read(keys_dir().join("ec.spki.der")).unwrap())).into_bytes());
     let n = if cfg.thorough { 12_000 } else { 700 };
